@@ -73,7 +73,7 @@ FAMILIES = {
     # several alternatives per allocation on resources of differing availability
     "alts": dict(nres=(3, 4), alt=0.85, alt2=True, rleave=0.5, rbook=0.4, ntasks=(2, 6), prio=0.7, dep=0.2, efforts=[240, 480, 960, 120], vac=0.0, gleave=0.0),
     # working hours declared on a resource group and inherited by its members
-    "grouphours": dict(group=1.0, ghours=1.0, nres=(2, 3), hours=0.25, shift=0.1, ntasks=(2, 5), efforts=[120, 480, 960], dep=0.3, xmid=0.2,
+    "grouphours": dict(group=1.0, ghours=1.0, gnest=0.4, nres=(2, 3), hours=0.25, shift=0.1, ntasks=(2, 5), efforts=[120, 480, 960], dep=0.3, xmid=0.2,
                        rleave=0.1, vac=0.1, gleave=0.0),
     # dated containers above leaves without dates of their own (scenario-specific starts on the leaves: C16)
     "scentrees": dict(nest=0.9, depth=2, contstart=0.8, ntasks=(3, 7), pin=0.0, dep=0.2, nres=(1, 2), efforts=[60, 120, 240, 480], rleave=0.0, vac=0.0, gleave=0.0),
@@ -95,6 +95,14 @@ FAMILIES = {
     # gaps in days, some as calendar time (gapduration 1d = 24 h) and some as working time (gaplength 1d = 8 h)
     "gaplenmix": dict(gaplenmix=0.4, dep=0.9, gap=[1440, 1440, 2880, 0], ntasks=(4, 8), nres=(1, 3), nest=0.3, contdep=0.2, onstart=0.05,
                       efforts=[120, 240, 480], prio=0.5, rleave=0.0, vac=0.0, gleave=0.0),
+    # shutdowns that straddle the project start or end, work right at the start (ASAP) and at the end (ALAP)
+    "gstraddle": dict(gstraddle=0.9, gleave=0.0, vac=0.0, rleave=0.0, ntasks=(1, 4), nres=(1, 2), efforts=[240, 480, 960], dep=0.3, prio=0.5,
+                      taskalap=0.3, dur=[("w", 3), ("w", 4)]),
+    # forward tasks that carry a deadline ('end') next to their work
+    "fwdend": dict(fwdend=0.6, ntasks=(2, 6), nres=(1, 2), dep=0.5, efforts=[60, 120, 240, 480, 90], gap=[0, 0, 60], prio=0.5, nest=0.3),
+    # several sub-slot backward tasks before one deadline on one resource
+    "alapsub": dict(alap=1.0, nres=(1, 1), ntasks=(3, 6), efforts=[20, 30, 45, 60, 90, 100, 150], dep=0.15, gap=[0, 0, 30], onstart=0.0, pin=0.0,
+                    milestone=0.0, prio=0.9, rleave=0.0, vac=0.0, gleave=0.0, dur=[("d", 3), ("d", 5)]),
     "taskalap": dict(taskalap=0.5, dep=0.4, onstart=0.0, pin=0.0, efforts=[60, 120, 240, 90], ntasks=(1, 5), milestone=0.0),
     "trees": dict(group=0.5, galloc=0.2, dupid=0.3, contstart=0.3, nest=0.8, depth=4, ntasks=(3, 10), dep=0.3, milestone=0.15, pin=0.15, contdep=0.3, unsched=0.3),
     # nested containers with windows of their own and leaves that cannot be scheduled
@@ -222,7 +230,15 @@ def gen(rng, cfg):
         # and ends in the new one
         a = day0 + (7 + rng.randint(0, 2)) * 86400
         ap["vac"].append((a, a + rng.randint(3, 6) * 86400))
-    if rng.random() < cfg["gleave"]:
+    if rng.random() < cfg.get("gstraddle", 0.0):
+        # a company shutdown that begins before the project start and ends inside, or begins inside and runs past the end
+        hor_ = {"w": 7, "d": 1}[ap["dur"][0]] * ap["dur"][1]
+        if rng.random() < 0.5:
+            ap["gleaves"].append((day0 - rng.randint(2, 10) * 86400, day0 + rng.randint(1, 3) * 86400))
+        else:
+            ap["gleaves"].append((day0 + (hor_ - rng.randint(1, 4)) * 86400, day0 + (hor_ + rng.randint(2, 9)) * 86400))
+        ap["gleave_kind"] = rng.choice(["holiday", "project", "sick", "special", "annual"])
+    elif rng.random() < cfg["gleave"]:
         a = day0 + rng.randint(0, 6) * 86400 + rng.choice([0, 11 * 3600, 13 * 3600])
         ap["gleaves"].append((a, None if a % 86400 == 0 and rng.random() < 0.5 else a + rng.choice([2 * 3600, 86400, 4 * 3600])))
         # every leave type blocks; "project" is stored with type index 0
@@ -285,6 +301,13 @@ def gen(rng, cfg):
                 g["shift"] = sid
         if rng.random() < cfg["gdaily"] / max(cfg["group"], 0.01):
             g["dailymax"] = rng.choice([120, 180, 360, 480])
+        if len(leaves_r) >= 2 and rng.random() < cfg.get("gnest", 0.0):
+            # departments inside the group: what the group declares reaches members two and three levels down
+            k = rng.randint(1, len(leaves_r) - 1)
+            inner = {"id": "dept", "kids": leaves_r[k:]}
+            if len(inner["kids"]) >= 2 and rng.random() < 0.5:
+                inner["kids"] = [inner["kids"][0], {"id": "team", "kids": inner["kids"][1:]}]
+            g["kids"] = leaves_r[:k] + [inner]
         ap["resources"] = [g]
     else:
         ap["resources"] = leaves_r
@@ -414,6 +437,10 @@ def gen(rng, cfg):
     for p, c in conts:
         if rng.random() < cfg["contstart"] and not ap.get("alap"):
             c["start"] = day0 + rng.randint(0, 5) * 86400
+    for p, n in leaves_t:
+        # a forward task with work and an 'end' of its own: a deadline, not a date to report
+        if "effort" in n and rng.random() < cfg.get("fwdend", 0.0) and not ap.get("alap") and not n.get("sched"):
+            n["end"] = day0 + rng.randint(max(2, hor // 2), hor + 5) * 86400 + rng.choice([0, 12, 17]) * 3600
     for p, n in leaves_t:
         # a leaf given by its dates alone: start and end, no effort (placed by the pre-pass like a dated milestone)
         if "milestone" in n and rng.random() < cfg.get("window", 0.0) and not ap.get("alap"):
